@@ -1,6 +1,257 @@
-/- Line-protocol driver for engine `tuple` — not built yet (stub). -/
+/- Line-protocol driver for the tuple model (engine `tuple`); the case syntax is described in harness/src/engines/tuple.rs. -/
+import AxVerif.Model.Tuple
+import AxVerif.Generated.Tuple
+namespace AxVerif.Tuple
+open AxVerif
+
+def P0 : Params := Generated.tupleParams
+
+def kindOfChar : Char → Option Kind
+  | 'b' => some .bool | 'i' => some .int | 'I' => some .bigint | 'u' => some .uint | 'U' => some .biguint
+  | 'f' => some .float | 'd' => some .double | 't' => some .blob
+  | _ => none
+
+def allSome {α : Type} : List (Option α) → Option (List α)
+  | [] => some []
+  | none :: _ => none
+  | some x :: xs => match allSome xs with
+    | some r => some (x :: r)
+    | none => none
+
+/-- `n` → NULL, `x<hex>` → payload of the column's kind -/
+def parseVal (k : Kind) (w : String) : Option Cell :=
+  if w = "n" then some none
+  else match w.toList with
+    | 'x' :: h =>
+      match (if h.isEmpty then some [] else bytesOfHexChars h) with
+      | none => none
+      | some b =>
+        match k with
+        | .blob => some (some b)
+        | .bool => if b = [0] ∨ b = [1] then some (some b) else none
+        | k => if b.length = P0.size k then some (some b) else none
+    | _ => none
+
+def showCell : Cell → String
+  | none => "n"
+  | some b => "x" ++ hexOfBytes b
+
+def showRow (r : Row) : String :=
+  "row " ++ joinWith "," ((r.keys.map some ++ r.vals).map showCell)
+
+def parseNat (w : String) : Option Nat :=
+  if w.isEmpty ∨ w.length > 20 ∨ !(w.toList.all Char.isDigit) then none
+  else match w.toNat? with
+    | some n => if n < 2 ^ 64 then some n else none
+    | none => none
+
+def parseIds (w : String) : Option (List Nat) :=
+  if w = "-" then some [] else allSome ((w.splitOn ",").map parseNat)
+
+def parseSnapshot : List String → Option Snapshot
+  | [a, b, c, d, e] =>
+    match parseNat a, parseNat b, (if c = "-" then some none else (parseNat c).map some), parseIds d, parseIds e with
+    | some xid, some xmin, some xmax, some act, some ab =>
+      some { xid := xid, xmin := xmin, xmax := xmax, active := act, aborted := ab }
+    | _, _, _, _, _ => none
+  | _ => none
+
+inductive Op
+  | build (sch : Schema) (x0 : Nat) (cells : List Cell)
+  | update (xid : Nat) (mods : List (Nat × String)) (stamped : Bool)
+  | stamp (xid : Nat)
+  | delete (xid : Nat)
+  | vacuum (h : Nat)
+  | pad
+  | last
+  | read (s : Snapshot)
+  | committed (s : Snapshot) (ids : List Nat)
+  | tupleVisible (s : Snapshot) (tmin : Nat) (tmax : Option Nat)
+
+def parseMods : List String → Option (List (Nat × String))
+  | [] => some []
+  | m :: rest =>
+    match m.splitOn "=" with
+    | [i, v] =>
+      match parseNat i, parseMods rest with
+      | some i, some r => if i > 255 ∨ r.any (·.1 = i) then none else some ((i, v) :: r)
+      | _, _ => none
+    | _ => none
+
+def parseOp (s : String) : Option Op :=
+  match (s.splitOn " ").filter (· ≠ "") with
+  | ["b", nk, types, x0, row] =>
+    match parseNat nk, allSome (types.toList.map kindOfChar), parseNat x0 with
+    | some nk, some kinds, some x0 =>
+      if nk = 0 ∨ nk > kinds.length ∨ kinds.length > 255 then none
+      else
+        let cells := row.splitOn ","
+        if cells.length ≠ kinds.length then none
+        else match allSome (List.zipWith parseVal kinds cells) with
+          | some vs => some (.build { keys := kinds.take nk, vals := kinds.drop nk } x0 vs)
+          | none => none
+    | _, _, _ => none
+  | ["u", xid, mods] =>
+    match parseNat xid, (if mods = "-" then some [] else parseMods (mods.splitOn ",")) with
+    | some xid, some m => some (.update xid m false)
+    | _, _ => none
+  | ["U", xid, mods] =>
+    match parseNat xid, (if mods = "-" then some [] else parseMods (mods.splitOn ",")) with
+    | some xid, some m => some (.update xid m true)
+    | _, _ => none
+  | ["x", xid] => (parseNat xid).map .stamp
+  | ["d", xid] => (parseNat xid).map .delete
+  | ["v", h] => (parseNat h).map .vacuum
+  | ["p"] => some .pad
+  | ["l"] => some .last
+  | "r" :: rest => (parseSnapshot rest).map .read
+  | ["c", a, b, c, d, e, ids] =>
+    match parseSnapshot [a, b, c, d, e], parseIds ids with
+    | some s, some ids => if ids.isEmpty then none else some (.committed s ids)
+    | _, _ => none
+  | ["i", a, b, c, d, e, tmin, tmax] =>
+    match parseSnapshot [a, b, c, d, e], parseNat tmin, (if tmax = "-" then some none else (parseNat tmax).map some) with
+    | some s, some tmin, some tmax => some (.tupleVisible s tmin tmax)
+    | _, _, _ => none
+  | _ => none
+
+def showFail : Fail → String
+  | .err => "err"
+  | .panic => "panic"
+
+/-- `ok <len> <xmin> <xmax|-> <version> #<bytes>`; the `#…` word is moved behind ` ## ` (non-gating) by `splitDiag` -/
+def showState (d : Bytes) : String :=
+  match readHeader P0 d with
+  | .ok h =>
+    let xm := match h.xmax with | some x => toString x | none => "-"
+    s!"ok {d.length} {h.xmin} {xm} {h.version} #{hexOfBytes d}"
+  | .error _ => s!"ok {d.length} ? ? ? #{hexOfBytes d}"
+
+structure St where
+  sch : Schema
+  tuple : Option Bytes
+  /-- the logical row the operations so far denote (tracked only for the specification, i.e. with no defect flag):
+      used for the non-gating self-check `#L:ok` / `#L:DIFF` of the refinement and chain theorems on every case -/
+  lrow : Option LRow := none
+
+def noDefects (D : Defects) : Bool := D == {}
+
+/-- `#L:ok` if the bytes are the encoding of the logical row -/
+def chkEnc (D : Defects) (sch : Schema) (d : Bytes) (L : Option LRow) : String :=
+  match noDefects D, L with
+  | true, some L => if encode P0 sch L == d then " #L:ok" else " #L:DIFF"
+  | _, _ => ""
+
+def chkRead (D : Defects) (s : Snapshot) (r : Option Row) (L : Option LRow) : String :=
+  match noDefects D, L with
+  | true, some L => if specVisible D s L == r then " #L:ok" else " #L:DIFF"
+  | _, _ => ""
+
+/-- typed values of an update; `none` = malformed line -/
+def typedMods (sch : Schema) : List (Nat × String) → Option Mods
+  | [] => some []
+  | (i, v) :: rest =>
+    match typedMods sch rest with
+    | none => none
+    | some r =>
+      match sch.vals[i]? with
+      | none => if v = "n" then some ((i, none) :: r) else none
+      | some k => match parseVal k v with
+        | some c => some ((i, c) :: r)
+        | none => none
+
+def runOps (D : Defects) : List Op → Option St → List String → Option (List String)
+  | [], _, acc => some acc.reverse
+  | .build sch x0 cells :: rest, _, acc =>
+    let keys := cells.take sch.keys.length
+    let vals := cells.drop sch.keys.length
+    match allSome keys with
+    | none => runOps D rest (some { sch := sch, tuple := none }) ("err" :: acc)       -- NULL key: `validate` refuses
+    | some ks =>
+      match build D P0 sch { keys := ks, vals := vals } x0 with
+      | .ok d =>
+        let L := some (LRow.insert ks vals x0)
+        runOps D rest (some { sch := sch, tuple := some d, lrow := L }) ((showState d ++ chkEnc D sch d L) :: acc)
+      | .error e => runOps D rest (some { sch := sch, tuple := none }) (showFail e :: acc)
+  | .committed s ids :: rest, st, acc =>
+    runOps D rest st (("cb " ++ String.join (ids.map (fun i => if committedBefore D s i then "1" else "0"))) :: acc)
+  | .tupleVisible s tmin tmax :: rest, st, acc =>
+    runOps D rest st ((if isTupleVisible D s tmin tmax then "vis 1" else "vis 0") :: acc)
+  | op :: rest, st, acc =>
+    match st with
+    | none => runOps D rest st ("nostate" :: acc)
+    | some { sch := _, tuple := none, lrow := _ } => runOps D rest st ("nostate" :: acc)
+    | some { sch := sch, tuple := some d, lrow := lr } =>
+      match op with
+      | .update xid mods stamped =>
+        match typedMods sch mods with
+        | none => none
+        | some m =>
+          match addVersion D P0 sch d m xid with
+          | .ok d1 =>
+            -- `U`: the new version is stamped with its creator (what the update is meant to do)
+            let d' := if stamped && !m.isEmpty then (match stamp P0 d1 xid with | .ok d2 => d2 | .error _ => d1) else d1
+            let L := lr.map (·.update xid m)
+            runOps D rest (some { sch := sch, tuple := some d', lrow := L }) ((showState d' ++ chkEnc D sch d' L) :: acc)
+          | .error e => runOps D rest st (showFail e :: acc)
+      | .stamp xid =>
+        match stamp P0 d xid with
+        | .ok d' =>
+          let L := lr.map (fun L => { L with cur := { L.cur with creator := xid } })
+          runOps D rest (some { sch := sch, tuple := some d', lrow := L }) ((showState d' ++ chkEnc D sch d' L) :: acc)
+        | .error e => runOps D rest st (showFail e :: acc)
+      | .delete xid =>
+        match delete P0 d xid with
+        | .ok d' =>
+          let L := lr.map (·.delete xid)
+          runOps D rest (some { sch := sch, tuple := some d', lrow := L }) ((showState d' ++ chkEnc D sch d' L) :: acc)
+        | .error e => runOps D rest st (showFail e :: acc)
+      | .vacuum h =>
+        match vacuumWith D P0 sch d h with
+        | .ok (freed, d') =>
+          let L := lr.map (·.vacuum h)
+          runOps D rest (some { sch := sch, tuple := some d', lrow := L }) ((s!"freed {freed} {showState d'}" ++ chkEnc D sch d' L) :: acc)
+        | .error e => runOps D rest st (showFail e :: acc)
+      | .pad =>
+        let d' := padded P0 d
+        runOps D rest (some { sch := sch, tuple := some d' }) (showState d' :: acc)
+      | .last =>
+        match decodeLast P0 sch d with
+        | .ok r => runOps D rest st (showRow r :: acc)
+        | .error e => runOps D rest st (showFail e :: acc)
+      | .read s =>
+        match decodeFor D P0 sch s d with
+        | .ok (some r) => runOps D rest st ((showRow r ++ chkRead D s (some r) lr) :: acc)
+        | .ok none => runOps D rest st (("none" ++ chkRead D s none lr) :: acc)
+        | .error e => runOps D rest st (showFail e :: acc)
+      | _ => none
+
+def parseDefects (flags : List String) : Defects :=
+  { updateKeepsInserterXmin := flags.contains "updateKeepsInserterXmin",
+    xmaxNoneSeesAll := flags.contains "xmaxNoneSeesAll",
+    ownDeleteWalksDeltas := flags.contains "ownDeleteWalksDeltas",
+    walkIgnoresOwnVersions := flags.contains "walkIgnoresOwnVersions",
+    vacuumDropsHorizonVersion := flags.contains "vacuumDropsHorizonVersion",
+    deltasCopiedUnaligned := flags.contains "deltasCopiedUnaligned",
+    versionOverflowPanics := flags.contains "versionOverflowPanics",
+    boolWriteNeedsLastByte := flags.contains "boolWriteNeedsLastByte",
+    paddedWalkPanics := flags.contains "paddedWalkPanics" }
+
+def step (D : Defects) (line : String) : String :=
+  let l := line.trimAscii.toString
+  if !l.startsWith "t " then "bad-op"
+  else
+    match allSome (((l.drop 2).toString.splitOn " ; ").map parseOp) with
+    | none => "bad-op"
+    | some ops =>
+      match runOps D ops none [] with
+      | none => "bad-op"
+      | some outs =>
+        let ws := outs.map (fun o => (o.splitOn " ").partition (fun w => !w.startsWith "#"))
+        joinWith " | " (ws.map (fun w => joinWith " " w.1)) ++ " ## " ++ joinWith " " (ws.map (fun w => joinWith " " w.2))
+
+end AxVerif.Tuple
+
 namespace AxVerif.Drivers
-
-def tuple (_flags : List String) (_line : String) : String := "unimplemented"
-
+def tuple (flags : List String) (line : String) : String := AxVerif.Tuple.step (AxVerif.Tuple.parseDefects flags) line
 end AxVerif.Drivers
